@@ -134,6 +134,10 @@ func allSeeds() []seed {
 	}
 	// harness-built
 	add("built-key-response", "keys", "", keyResponse("valid", "valid"))
+	// key responses with an unusual key ID (the key-ID-shape dimension of Lifecycle.tla), as seeds for mutation
+	add("built-key-response-alg-only", "keys", "", keyIDResponse("verify", "alg_only", "len32"))
+	add("built-key-response-empty-id-old", "keys", "", keyIDResponse("both", "empty", "len32"))
+	add("built-key-response-alone", "keys", "", keyIDResponse("verify_alone", "two_colons", "len33"))
 	add("built-header", "header", "", []byte(headerClass("valid")))
 	for i, hs := range []string{"xm:a:k1:d|xm:a:k2:d", "xm:a:k1:d|other|xm:b:k1:n", "other|xm:a:k1:n", "xm:a:k1:d|xm:a:k1:d|xm:a:k2:x"} {
 		add("built-headers-"+string(rune('a'+i)), "headers", "", []byte(headerLines(hs)))
